@@ -227,25 +227,45 @@ invariant of cty marks (`Value.Mark`/`WithMarks` merge into an existing marker,
 a `marker` never wraps a `marker`) -/
 def Value.flatMarks (v : Value) : Bool := !v.unmark.isMarked
 
+/-- a value of the dynamic pseudo-type is unknown or null (`cty.DynamicVal`,
+`cty.NullVal(cty.DynamicPseudoType)`): no constructor gives it a known payload -/
+def Value.dynOK (v : Value) : Bool := !v.ty.isDyn || !v.isKnown || v.isNull
+
+/-- lengths are Go `int`s: a tuple type or a collection payload has at most
+`math.MaxInt` members -/
+def Value.lenFits (v : Value) : Bool :=
+  (match v.ty with
+   | .tuple es => decide ((es.length : Int) ≤ maxInt)
+   | _ => true) &&
+  (match Cov.possibleLen v.v.unmark1 with
+   | some (_, h) => decide (h ≤ maxInt)
+   | none => true)
+
+/-- what the C01 theorems assume of an operand beyond what they state: the
+representation invariants of `cty.Value` that the operation methods rely on — a
+well-formed type, at most one marker layer, no known payload of the placeholder
+type, lengths within Go's `int`.  (Every value built by cty's constructors satisfies them; property C06.) -/
+def Value.wfc (v : Value) : Bool := v.flatMarks && v.ty.wf && v.dynOK && v.lenFits
+
 def Sound₁ (op : Value → Res Value) : Prop :=
-  ∀ o w r, o.whollyKnown = true → o.flatMarks = true → w.flatMarks = true → CoversX w o = true → op o = .ok r →
+  ∀ o w r, o.whollyKnown = true → o.wfc = true → w.wfc = true → CoversX w o = true → op o = .ok r →
     ∃ r', op w = .ok r' ∧ Covers r' r = true
 
 def Sound₂ (op : Value → Value → Res Value) : Prop :=
   ∀ o₁ o₂ w₁ w₂ r, o₁.whollyKnown = true → o₂.whollyKnown = true →
-    o₁.flatMarks = true → o₂.flatMarks = true → w₁.flatMarks = true → w₂.flatMarks = true →
+    o₁.wfc = true → o₂.wfc = true → w₁.wfc = true → w₂.wfc = true →
     CoversX w₁ o₁ = true → CoversX w₂ o₂ = true → op o₁ o₂ = .ok r →
     ∃ r', op w₁ w₂ = .ok r' ∧ Covers r' r = true
 
 /-- the same, over the weakenings of the property's quantifier only (implied by
 `Sound` through `weaken_covers`) -/
 def SoundW₁ (op : Value → Res Value) : Prop :=
-  ∀ o w r, o.whollyKnown = true → o.flatMarks = true → w.flatMarks = true → Weaken o w → op o = .ok r →
+  ∀ o w r, o.whollyKnown = true → o.wfc = true → w.wfc = true → Weaken o w → op o = .ok r →
     ∃ r', op w = .ok r' ∧ Covers r' r = true
 
 def SoundW₂ (op : Value → Value → Res Value) : Prop :=
   ∀ o₁ o₂ w₁ w₂ r, o₁.whollyKnown = true → o₂.whollyKnown = true →
-    o₁.flatMarks = true → o₂.flatMarks = true → w₁.flatMarks = true → w₂.flatMarks = true →
+    o₁.wfc = true → o₂.wfc = true → w₁.wfc = true → w₂.wfc = true →
     Weaken o₁ w₁ → Weaken o₂ w₂ → op o₁ o₂ = .ok r →
     ∃ r', op w₁ w₂ = .ok r' ∧ Covers r' r = true
 
